@@ -4,6 +4,8 @@
 import sys, os, subprocess, glob, tempfile, shutil
 from concurrent.futures import ThreadPoolExecutor
 HERE = os.path.dirname(os.path.dirname(os.path.abspath(__file__)))
+PATCHROOT = HERE
+REPO = '/repo'
 PIDS = ['C01', 'C02', 'C03', 'C04', 'C05', 'C06', 'C07', 'C08', 'C10', 'C11', 'C12', 'C13', 'C14', 'C15', 'C16', 'C17', 'C18', 'C19', 'C20']
 
 
@@ -11,7 +13,7 @@ def one(patch):
     t = tempfile.mkdtemp(prefix='msa-eqx-')
     out = []
     try:
-        subprocess.check_call(['rsync', '-a', '--exclude', '_build', '--exclude', 'html', '--exclude', '.git', '/repo/', t + '/'])
+        subprocess.check_call(['rsync', '-a', '--exclude', '_build', '--exclude', 'html', '--exclude', '.git', REPO + '/', t + '/'])
         p = subprocess.run(['patch', '-p1', '-s', '-d', t, '-i', patch], stdout=subprocess.PIPE, stderr=subprocess.STDOUT, text=True)
         if p.returncode != 0:
             return [(patch, '-', 'SKIPPED (does not apply)', '')]
@@ -27,14 +29,34 @@ def one(patch):
         shutil.rmtree(t, ignore_errors=True)
 
 
+def snapshot():
+    """EQX_SNAPSHOT=1: run from a frozen copy of the checker and of /repo (outside both), so that the long run is not disturbed by edits made meanwhile"""
+    global HERE, REPO
+    snap = tempfile.mkdtemp(prefix='msa-eqs-')
+    subprocess.check_call(['rsync', '-a', '--exclude', '.git', '--exclude', 'seeded', '--exclude', 'equivalents', '--exclude', 'mutants', '--exclude', 'observations', '--exclude', 'out', '--exclude', 'evidence',
+                           HERE + '/', snap + '/verif/'])
+    subprocess.check_call(['rsync', '-a', '--exclude', '_build', '--exclude', 'html', '--exclude', '.git', '/repo/', snap + '/repo/'])
+    HERE, REPO = snap + '/verif', snap + '/repo'
+    return snap
+
+
 def main():
-    patches = [os.path.abspath(p) for p in sys.argv[1:]] or sorted(glob.glob(os.path.join(HERE, 'equivalents', '*', '*.patch')))
+    patches = [os.path.abspath(p) for p in sys.argv[1:]] or sorted(glob.glob(os.path.join(PATCHROOT, 'equivalents', '*', '*.patch')))
+    snap = snapshot() if os.environ.get('EQX_SNAPSHOT') else None
+    try:
+        run(patches)
+    finally:
+        if snap:
+            shutil.rmtree(snap, ignore_errors=True)
+
+
+def run(patches):
     bad = 0
     with ThreadPoolExecutor(max_workers=int(os.environ.get('EQX_WORKERS', '8'))) as ex:
         for res in ex.map(one, patches):
             for (patch, pid, st, msg) in res:
                 bad += 1
-                print('%-70s %s %s %s' % (os.path.relpath(patch, HERE), pid, st, msg), flush=True)
+                print('%-70s %s %s %s' % (os.path.relpath(patch, PATCHROOT), pid, st, msg), flush=True)
     print('%d patches x %d checks, %d not silent' % (len(patches), len(PIDS), bad))
     sys.exit(1 if bad else 0)
 
